@@ -286,6 +286,11 @@ def decode_script(
     if witness:
         witness_stack_len, scriptbytes = bits.parse_compact_size_uint(scriptbytes)
         parsed_bytes = bits.compact_size_uint(witness_stack_len)
+        if not witness_stack_len:
+            # empty witness stack, nothing further to consume
+            if parse:
+                return parsed_bytes, scriptbytes
+            return decoded, scriptbytes
 
     while scriptbytes:
         if witness:
